@@ -272,9 +272,11 @@ CONSTANTS
   Family = "{family}"
   ShardK = {k}
   ShardS = {s}
-  SampleK = {samplek}
+  SampleKB = {skb}
+  SampleKH = {skh}
   Seed = {seed}
-  Lmax = {lmax}
+  LmaxB = {lb}
+  LmaxH = {lh}
   Codes = {codes}
   Alpha = "{alpha}"
   ClientFilter = "{client}"
@@ -289,11 +291,11 @@ INV_MODEL = ["ClausesKnown", "WireBound", "FollowsToBudget"]
 PROPS = ["StrippedStaysStripped", "MethodOnlyBy303"]
 
 
-def mc_cfg(*, mode="free", maxhops=3, dev=AS_IS, family="free", k=1, s=0, samplek=1, seed=0, lmax=3, codes=ALL_CODES,
+def mc_cfg(*, mode="free", maxhops=3, dev=AS_IS, family="free", k=1, s=0, skb=1, skh=1, seed=0, lb=3, lh=3, codes=ALL_CODES,
            alpha="small", client="all", view=True, invs=(), props=()):
     tail = (["VIEW View"] if view else []) + ["INVARIANT " + i for i in invs] + ["PROPERTY " + p for p in props]
-    return MC_CFG.format(mode=mode, maxhops=maxhops, dev=dev, family=family, k=k, s=s, samplek=samplek, seed=seed,
-                         lmax=lmax, codes=codes, alpha=alpha, client=client, tail="\n".join(tail))
+    return MC_CFG.format(mode=mode, maxhops=maxhops, dev=dev, family=family, k=k, s=s, skb=skb, skh=skh, seed=seed,
+                         lb=lb, lh=lh, codes=codes, alpha=alpha, client=client, tail="\n".join(tail))
 
 
 def _expect_held(rep, name, r):
@@ -321,6 +323,7 @@ def stage1(rep, pid):
     # (2) per-action coverage read back (vacuity gate) on a one-answer run over every configuration
     r = tlc.run("MC_Redirect", mc_cfg(maxhops=1, codes="{303, 307}", invs=["ClausesKnown"]), workers=4, heap="2g", coverage=True,
                 timeout=3600)
+    rep.add_tlc("free as-is, one answer, with -coverage", r)
     cov = {a: r.coverage.get(a, (0, 0))[1] for a in ACTIONS}
     rep.extra["action_coverage"] = cov
     if any(v == 0 for v in cov.values()):
@@ -454,22 +457,20 @@ def run_property(rep, pid):
     skip = C06_CLAUSES if pid == "C05" else C05_CLAUSES
     findings = known.load(pid)
     stage1(rep, pid)
-    K = 16
-    main, other = ("budget", "headers") if pid == "C05" else ("headers", "budget")
+    K = 8 if quick else 16
     if quick:
-        plan = {"budget": dict(samplek=47 if pid == "C05" else 211, lmax=3), "headers": dict(samplek=401 if pid == "C06" else 2003, lmax=3)}
-        nsim = 400
+        plan = dict(skb=47, lb=3, skh=2003, lh=3) if pid == "C05" else dict(skb=211, lb=3, skh=401, lh=3)
+        nsim, nsimjobs = 400, 2
     else:
-        plan = {"budget": dict(samplek=11 if pid == "C05" else 47, lmax=6), "headers": dict(samplek=61 if pid == "C06" else 401, lmax=4)}
-        nsim = 8000
+        plan = dict(skb=11, lb=6, skh=401, lh=4) if pid == "C05" else dict(skb=47, lb=6, skh=61, lh=4)
+        nsim, nsimjobs = 8000, 8
     jobs = []
-    for fam in (main, other):
-        for s in range(K):
-            jobs.append((mc_cfg(mode="planned", family=fam, k=K, s=s, seed=rep.seed, view=False, alpha="full",
-                                invs=["EmitInv", "ClausesKnown"], **plan[fam]), skip, 0, 0))
-    for s in range(8):
-        jobs.append((mc_cfg(mode="free", maxhops=6, family="sim", view=False, alpha="full", invs=["EmitInv"]), skip, nsim // 8,
-                     rep.seed * 100 + s + 1))
+    for s in range(K):
+        jobs.append((mc_cfg(mode="planned", family="planned", k=K, s=s, seed=rep.seed, view=False, alpha="full",
+                            invs=["EmitInv", "ClausesKnown"], **plan), skip, 0, 0))
+    for s in range(nsimjobs):
+        jobs.append((mc_cfg(mode="free", maxhops=6, family="sim", view=False, alpha="full", invs=["EmitInv"]), skip,
+                     nsim // nsimjobs, rep.seed * 100 + s + 1))
     with mp.Pool(16) as pool:
         outs = pool.map(_emit_shard, jobs, chunksize=1)
     tags = {}
@@ -485,7 +486,7 @@ def run_property(rep, pid):
             report_bad(rep, pid, tr, l, c, findings)
         if o["nbad"] > len(o["bad"]):
             rep.extra["bad_not_listed"] = rep.extra.get("bad_not_listed", 0) + o["nbad"] - len(o["bad"])
-    nplanned = sum(o["n"] for o in outs[: 2 * K])
+    nplanned = sum(o["n"] for o in outs[:K])
     rep.extra.update({"scenarios_emitted_and_replayed": rep.traces, "planned_scenarios": nplanned,
                       "simulated_scenarios": rep.traces - nplanned, "requests_observed": sum(o["requests"] for o in outs),
                       "scenario_tags": dict(sorted(tags.items())),
